@@ -156,7 +156,7 @@ async def async_connect(transport):
     """Connect to the socket."""
     loop = asyncio.get_running_loop()
     try:
-        while True:
+        while transport.protocol:
             _LOGGER.info("Trying to connect to %s", transport.gateway.server_address)
             try:
                 await asyncio.wait_for(
